@@ -453,7 +453,7 @@ def oracle(ctx):
         ctx.case(("witness-stale", cache), nontrivial=True)
         judge_history(ctx, pending, cache, wit, obs, want, after_stale, "witness D-C10-stale")
     # the stale iterator of a CACHED set goes on with the sequence it was created for
-    for n in (3, 13, 25):
+    for n, relist in ((3, False), (13, False), (25, False), (13, True), (25, True)):
         from dateutil import rrule as R
         s = R.rruleset(cache=True)
         s.rrule(rrlib.daily(n, False))
@@ -461,15 +461,17 @@ def oracle(ctx):
         if n == 3:
             list(s)                     # the old generator is already exhausted when the member is added
         s.rdate(rrlib.to_dt(40 * 86400))
+        if relist:
+            list(s)                     # the NEW generation is complete before the old iterator goes on
         try:
             rest = ints(list(it))
         except Exception as ex:
             rest = "err " + type(ex).__name__
-        ctx.case(("stale-own", n), nontrivial=True)
+        ctx.case(("stale-own", n, relist), nontrivial=True)
         if rest != [86400 * k for k in range(1, n)] or ints(list(s)) != [86400 * k for k in range(n)] + [40 * 86400] or s.count() != n + 1:
             ctx.violation("an iterator of a cached set of %d daily instants that has taken one, then rdate(+40d): the iterator continues with %s, list(set) has %d instants, count() = %r"
                           % (n, rest, len(list(s)), s.count()),
-                          {"cache": True, "history": "rr%s;o1;rd%d;u0:100;qall;qcnt" % (ilist([86400 * k for k in range(n)]), 40 * 86400), "failing_op": 3,
+                          {"cache": True, "history": "rr%s;o1;rd%d;%su0:100;qall;qcnt" % (ilist([86400 * k for k in range(n)]), 40 * 86400, "qall;" if relist else ""), "failing_op": 3,
                            "after_stale_resume": True, "model_reproduces": False, "origin": "stale-own"}, None)
 
 
